@@ -1,26 +1,591 @@
-//! C02 - not built yet.
-use crate::engine::{PropertyInfo, RunCtx};
+//! C02 - the interpreter agrees with an independent IEC reference semantics for the ST core.
+//!
+//! Generator: `stgen` (typed ST programs as a function of a choice tape) in its strict
+//! dial. Oracle: `stref` (reference evaluator written from IEC 61131-3 and docs/specs).
+//! After EVERY cycle all variables of all program instances, nested FB instances and
+//! globals are compared (value and type), together with the fault verdict (class and cycle).
+
+use std::collections::BTreeMap;
+use std::sync::atomic::{AtomicU64, Ordering};
+use std::sync::Mutex;
+
+use proptest::prelude::*;
+use proptest::strategy::ValueTree;
+use serde::{Deserialize, Serialize};
+use serde_json::json;
+
+use crate::engine::tape::{tape_strategy, Tape};
+use crate::engine::{catch, Probe, PropertyInfo, RunCtx};
+use crate::stgen::ast::*;
+use crate::stgen::print::{print_program, PrintOpts};
+use crate::stgen::rt::{snapshot, Real, RealFault};
+use crate::stgen::{generate, GenConfig};
+use crate::stref::{flatten_state, CycleEnd, Machine, RefConfig};
+
+#[path = "c02/handmade.rs"]
+mod handmade;
 
 pub fn info() -> PropertyInfo {
     PropertyInfo {
         id: "C02",
         level: "exploration",
-        rule: "not built yet",
-        assumptions: &[],
-        workers_quick: 1,
-        workers_thorough: 1,
+        rule: "cases = stgen programs in the strict dial (typed literals, exact-type assignments/arguments; BOOL, 8 integer types, REAL/LREAL, TIME comparisons, enums, 1-2-dim arrays, structs, FUNCTIONs with IN/OUT/IN_OUT, FUNCTION_BLOCK instances with state, IF/CASE/FOR/WHILE/REPEAT/EXIT/CONTINUE/RETURN, <= 25 statements per POU) x input traces of 1-5 cycles; every case is run on the real runtime (TestHarness) and on the reference evaluator stref, all variables and the fault verdict are compared after every cycle; non-trivial = the reference executed >= 3 statements and (>= 1 variable differs from its initial value or a fault was raised); distinct by SHA-256 of (source, trace)",
+        assumptions: &[
+            "reference semantics: IEC 61131-3 Ed.3 + docs/specs/05,06,10 (see harness/src/stref/mod.rs); a FOR increment that leaves the control type and a non-finite REAL/LREAL result are Overflow faults",
+            "not asserted (standard and docs silent): value of a FOR control variable after the loop; order of evaluating an assignment target's subscripts vs. its right-hand side (both fault classes accepted); state of VAR_IN_OUT/VAR_OUTPUT targets of calls abandoned by a fault; order of effects between sibling call arguments (nested effectful calls are not generated)",
+            "strict dial: implicit conversions at assignment/binding are outside the explored domain while finding F8 is open",
+            "harness built with overflow-checks and debug-assertions (the repository's dev/test profile)",
+        ],
+        workers_quick: 8,
+        workers_thorough: 16,
         address_space_limit: 0,
-        watchdog_quick_s: 600,
-        watchdog_thorough_s: 3600,
+        watchdog_quick_s: 900,
+        watchdog_thorough_s: 7200,
         run,
     }
 }
 
+/// A case: the two tapes are the ground truth; `program`/`trace`/`source` are derived from
+/// them when the case is generated and stored so that a replay file stays meaningful (and
+/// replayable from the AST) even if the generator changes later.
+#[derive(Clone, Debug, Serialize, Deserialize)]
+pub struct Case {
+    pub prog_tape: Tape,
+    pub trace_tape: Tape,
+    /// bit 0: full parentheses, bit 1: `&` for AND.
+    pub print_bits: u8,
+    /// "strict" | "implicit"
+    #[serde(default)]
+    pub dial: String,
+    #[serde(default)]
+    pub program: Option<Program>,
+    #[serde(default)]
+    pub trace: Option<Trace>,
+    /// Printed source (informational).
+    #[serde(default)]
+    pub source: String,
+}
+
+pub fn config_for(dial: &str) -> GenConfig {
+    if dial == "implicit" {
+        GenConfig::implicit_core()
+    } else {
+        GenConfig::strict_core()
+    }
+}
+
+fn opts_of(bits: u8) -> PrintOpts {
+    PrintOpts {
+        full_parens: bits & 1 != 0,
+        ampersand: bits & 2 != 0,
+    }
+}
+
+pub fn materialize(mut c: Case) -> Case {
+    let cfg = config_for(&c.dial);
+    let g = generate(&c.prog_tape, &c.trace_tape, &cfg);
+    c.source = print_program(&g.program, opts_of(c.print_bits)).source;
+    c.program = Some(g.program);
+    c.trace = Some(g.trace);
+    c
+}
+
+static REJECTED: AtomicU64 = AtomicU64::new(0);
+static RAN: AtomicU64 = AtomicU64::new(0);
+static INTERNAL: Mutex<Vec<String>> = Mutex::new(Vec::new());
+static TIMEOUTS: AtomicU64 = AtomicU64::new(0);
+
+/// Paths of variables that are never compared (FOR control variables).
+fn skip_paths(prog: &Program) -> Vec<String> {
+    fn walk(prog: &Program, prefix: &str, pou: &Pou, out: &mut Vec<String>, depth: u32) {
+        if depth > 6 {
+            return;
+        }
+        for v in &pou.vars {
+            if v.role == Role::ForControl {
+                out.push(format!("{prefix}.{}", v.name));
+            }
+            if let Ty::Fb(f) = &v.ty {
+                if let Some(p) = prog.pou(f) {
+                    walk(prog, &format!("{prefix}.{}", v.name), p, out, depth + 1);
+                }
+            }
+        }
+    }
+    let mut out = Vec::new();
+    for (inst, pname) in &prog.instances {
+        if let Some(p) = prog.pou(pname) {
+            walk(prog, inst, p, &mut out, 0);
+        }
+    }
+    out
+}
+
+fn path_under(path: &str, prefix: &str) -> bool {
+    path == prefix
+        || (path.starts_with(prefix)
+            && matches!(path.as_bytes().get(prefix.len()), Some(b'.') | Some(b'[')))
+}
+
+fn trace_text(prog: &Program, trace: &Trace) -> String {
+    let mut s = String::new();
+    for (k, c) in trace.iter().enumerate() {
+        let w: Vec<String> = c
+            .writes
+            .iter()
+            .map(|w| {
+                let inst = if w.instance.is_empty() {
+                    "G"
+                } else {
+                    w.instance.as_str()
+                };
+                format!(
+                    "{}.{} := {}",
+                    inst,
+                    w.var,
+                    crate::stgen::print::literal_text(&w.value, prog, true)
+                )
+            })
+            .collect();
+        s.push_str(&format!(
+            "  cycle {}: dt={}ns writes [{}]\n",
+            k + 1,
+            c.dt_ns,
+            w.join("; ")
+        ));
+    }
+    s
+}
+
+pub struct Verdict {
+    pub labels: Vec<String>,
+    pub nontrivial: bool,
+    pub steps: u64,
+}
+
+/// Compare the real runtime with the reference on one program + trace.
+pub fn compare(prog: &Program, trace: &Trace, opts: PrintOpts) -> Result<Verdict, String> {
+    let printed = print_program(prog, opts);
+    let src = &printed.source;
+    let mut labels: Vec<String> = Vec::new();
+    let fail = |what: String| -> String {
+        format!(
+            "{what}\n--- trace\n{}--- source\n{}",
+            trace_text(prog, trace),
+            src
+        )
+    };
+
+    // ---- reference first (also decides whether the case is inside the step budget)
+    let mut m = match Machine::new(
+        prog,
+        RefConfig {
+            trace: false,
+            ..RefConfig::default()
+        },
+    ) {
+        Ok(m) => m,
+        Err(e) => {
+            INTERNAL
+                .lock()
+                .unwrap()
+                .push(format!("reference cannot initialise: {e}"));
+            return Ok(Verdict {
+                labels: vec!["internal_error".into()],
+                nontrivial: false,
+                steps: 0,
+            });
+        }
+    };
+    let initial = flatten_state(&m.state());
+    let mut ref_states = Vec::new();
+    let mut ref_ends = Vec::new();
+    let mut steps = 0u64;
+    for c in trace {
+        for w in &c.writes {
+            if let Err(e) = m.write_input(w) {
+                INTERNAL
+                    .lock()
+                    .unwrap()
+                    .push(format!("reference input write: {e}"));
+                return Ok(Verdict {
+                    labels: vec!["internal_error".into()],
+                    nontrivial: false,
+                    steps: 0,
+                });
+            }
+        }
+        let out = m.cycle();
+        steps += out.steps;
+        if let Some(msg) = m.internal_error.take() {
+            INTERNAL.lock().unwrap().push(format!("{msg}\n{src}"));
+            return Ok(Verdict {
+                labels: vec!["internal_error".into()],
+                nontrivial: false,
+                steps,
+            });
+        }
+        if out.end == CycleEnd::Budget {
+            return Ok(Verdict {
+                labels: vec!["outside_step_budget".into()],
+                nontrivial: false,
+                steps,
+            });
+        }
+        let faulted = matches!(out.end, CycleEnd::Fault(_));
+        ref_states.push(flatten_state(&m.state()));
+        ref_ends.push(out.end);
+        if faulted {
+            break;
+        }
+    }
+
+    // ---- the real runtime
+    let mut real = match catch(|| Real::compile(src)) {
+        Ok(Ok(r)) => r,
+        Ok(Err(e)) => {
+            REJECTED.fetch_add(1, Ordering::Relaxed);
+            let first = e
+                .lines()
+                .next()
+                .unwrap_or("")
+                .chars()
+                .take(70)
+                .collect::<String>();
+            if let Ok(dir) = std::env::var("C02_DEBUG_DIR") {
+                let name = format!(
+                    "{dir}/rej-{:016x}.st",
+                    crate::engine::digest64(src.as_bytes())
+                );
+                let _ = std::fs::write(name, format!("(* {e} *)\n{src}"));
+            }
+            return Ok(Verdict {
+                labels: vec![format!("rejected:{first}")],
+                nontrivial: false,
+                steps,
+            });
+        }
+        Err(p) => return Err(fail(format!("the compiler panicked: {p}"))),
+    };
+    RAN.fetch_add(1, Ordering::Relaxed);
+    let skip = skip_paths(prog);
+    let mut changed = false;
+    let mut any_fault = false;
+    for (k, c) in trace.iter().enumerate() {
+        if k >= ref_ends.len() {
+            break;
+        }
+        real.apply(prog, c)
+            .map_err(|e| fail(format!("cannot apply inputs of cycle {}: {e}", k + 1)))?;
+        let rf = match catch(|| real.cycle(5_000)) {
+            Ok(f) => f,
+            Err(p) => {
+                let expect = match &ref_ends[k] {
+                    CycleEnd::Fault(f) => {
+                        format!("a {} fault at statement {}", f.kinds[0].name(), f.stmt)
+                    }
+                    _ => "a normal cycle".to_string(),
+                };
+                return Err(fail(format!(
+                    "cycle {}: the runtime panicked ({p}); the reference expects {expect}",
+                    k + 1
+                )));
+            }
+        };
+        if let Some(RealFault::Other(o)) = &rf {
+            if o.contains("ExecutionTimeout") {
+                TIMEOUTS.fetch_add(1, Ordering::Relaxed);
+                return Ok(Verdict {
+                    labels: vec!["runtime_deadline_hit".into()],
+                    nontrivial: false,
+                    steps,
+                });
+            }
+        }
+        let mut unsettled: Vec<String> = Vec::new();
+        match (&ref_ends[k], &rf) {
+            (CycleEnd::Ok, None) => {}
+            (CycleEnd::Fault(f), Some(RealFault::Kind(kind))) if f.kinds.contains(kind) => {
+                any_fault = true;
+                labels.push(format!("fault={}", kind.name()));
+                if f.depth > 0 {
+                    labels.push("fault_inside_call".into());
+                }
+                unsettled = f.unsettled.clone();
+            }
+            (CycleEnd::Fault(f), other) => {
+                let want: Vec<&str> = f.kinds.iter().map(|k| k.name()).collect();
+                return Err(fail(format!(
+                    "cycle {}: the reference raises {} at statement {} (call depth {}), the runtime {}",
+                    k + 1,
+                    want.join(" or "),
+                    f.stmt,
+                    f.depth,
+                    match other {
+                        None => "completes the cycle without a fault".to_string(),
+                        Some(RealFault::Kind(k)) => format!("raises {}", k.name()),
+                        Some(RealFault::Other(o)) => format!("raises {o}"),
+                    }
+                )));
+            }
+            (_, Some(f)) => {
+                return Err(fail(format!(
+                    "cycle {}: the runtime raises {} but the reference completes the cycle",
+                    k + 1,
+                    match f {
+                        RealFault::Kind(k) => k.name().to_string(),
+                        RealFault::Other(o) => o.clone(),
+                    }
+                )));
+            }
+            (CycleEnd::Budget, None) => {}
+        }
+        if real.frames_left() != 0 && rf.is_none() {
+            return Err(fail(format!(
+                "cycle {}: {} call frame(s) left on the runtime's stack",
+                k + 1,
+                real.frames_left()
+            )));
+        }
+        // ---- all variables
+        let got = snapshot(&real.harness, prog);
+        let want = &ref_states[k];
+        let mut diffs = Vec::new();
+        for (path, wv) in want {
+            if skip.iter().any(|s| path_under(path, s))
+                || unsettled.iter().any(|s| path_under(path, s))
+            {
+                continue;
+            }
+            if initial.get(path) != Some(wv) {
+                changed = true;
+            }
+            match got.get(path) {
+                Some(gv) if gv == wv => {}
+                Some(gv) => diffs.push(format!(
+                    "{path}: runtime {} , reference {}",
+                    gv.show(),
+                    wv.show()
+                )),
+                None => diffs.push(format!(
+                    "{path}: missing in the runtime's storage, reference {}",
+                    wv.show()
+                )),
+            }
+        }
+        if !diffs.is_empty() {
+            let n = diffs.len();
+            diffs.truncate(6);
+            return Err(fail(format!(
+                "after cycle {}{}: {} variable(s) differ\n  {}",
+                k + 1,
+                if any_fault { " (faulted)" } else { "" },
+                n,
+                diffs.join("\n  ")
+            )));
+        }
+        if any_fault {
+            break;
+        }
+    }
+    for (l, _) in m.coverage.iter() {
+        labels.push(l.clone());
+    }
+    labels.push(format!("cycles={}", ref_ends.len()));
+    if !any_fault {
+        labels.push("fault=none".into());
+    }
+    Ok(Verdict {
+        labels,
+        nontrivial: steps >= 3 && (changed || any_fault),
+        steps,
+    })
+}
+
+fn check_case(case: &Case, probe: &mut Probe) -> Result<(), String> {
+    let owned;
+    let (prog, trace) = match (&case.program, &case.trace) {
+        (Some(p), Some(t)) => (p, t),
+        _ => {
+            owned = materialize(case.clone());
+            (
+                owned.program.as_ref().unwrap(),
+                owned.trace.as_ref().unwrap(),
+            )
+        }
+    };
+    let cfg = config_for(&case.dial);
+    // what the generator steered around (recomputed from the tape; cheap)
+    if case.program.is_some() && !case.prog_tape.data.is_empty() {
+        for (what, n) in generate(&case.prog_tape, &case.trace_tape, &cfg).excluded {
+            for _ in 0..n.min(3) {
+                probe.excluded(what.clone());
+            }
+        }
+    }
+    let v = compare(prog, trace, opts_of(case.print_bits))?;
+    for l in &v.labels {
+        probe.label(l.clone());
+    }
+    probe.label(format!(
+        "dial={}",
+        if case.dial.is_empty() {
+            "strict"
+        } else {
+            case.dial.as_str()
+        }
+    ));
+    if case.dial != "implicit" {
+        probe.excluded("F8-implicit-conversion-at-assignment-or-binding (strict dial: every case)");
+    }
+    if v.nontrivial {
+        let mut key = case.source.as_bytes().to_vec();
+        key.extend_from_slice(serde_json::to_string(trace).unwrap_or_default().as_bytes());
+        probe.nontrivial(&key);
+        if v.steps > 20 {
+            probe.sample(json!({"source": case.source, "cycles": trace.len(), "statements_executed": v.steps}));
+        }
+    }
+    Ok(())
+}
+
+pub fn case_strategy(dial: &'static str) -> impl Strategy<Value = Case> {
+    (tape_strategy(700), tape_strategy(60), 0u8..8).prop_map(move |(p, t, bits)| {
+        // print options: mostly minimal parentheses
+        let print_bits = match bits {
+            0 => 1,
+            1 => 2,
+            2 => 3,
+            _ => 0,
+        };
+        materialize(Case {
+            prog_tape: p,
+            trace_tape: t,
+            print_bits,
+            dial: dial.to_string(),
+            program: None,
+            trace: None,
+            source: String::new(),
+        })
+    })
+}
+
 /// Helper subcommands (child processes of this check); None = not mine.
-pub fn helper(_args: &[String]) -> Option<i32> {
-    None
+pub fn helper(args: &[String]) -> Option<i32> {
+    match args.first().map(|s| s.as_str()) {
+        Some("c02-probe") => {
+            let path = args.get(1)?;
+            let cycles: usize = args.get(2).and_then(|s| s.parse().ok()).unwrap_or(1);
+            let src = std::fs::read_to_string(path).ok()?;
+            let prog = Program {
+                types: vec![],
+                pous: vec![],
+                globals: vec![],
+                instances: vec![],
+            };
+            match Real::compile(&src) {
+                Err(e) => {
+                    println!("COMPILE ERROR: {e}");
+                    Some(1)
+                }
+                Ok(mut real) => {
+                    for c in 0..cycles {
+                        let f = catch(|| real.cycle(2000));
+                        println!("cycle {c}: fault={f:?}");
+                        for (k, v) in snapshot(&real.harness, &prog) {
+                            println!("   {k} = {}", v.show());
+                        }
+                    }
+                    Some(0)
+                }
+            }
+        }
+        Some("c02-gen") => {
+            // tpv c02-gen <seed> [n] [dial]: print generated programs (generator debugging)
+            let seed: u64 = args.get(1).and_then(|s| s.parse().ok()).unwrap_or(1);
+            let n: usize = args.get(2).and_then(|s| s.parse().ok()).unwrap_or(1);
+            let dial: &'static str = if args.get(3).map(|s| s.as_str()) == Some("implicit") {
+                "implicit"
+            } else {
+                "strict"
+            };
+            let mut runner = proptest::test_runner::TestRunner::new_with_rng(
+                proptest::test_runner::Config::default(),
+                proptest::test_runner::TestRng::from_seed(
+                    proptest::test_runner::RngAlgorithm::ChaCha,
+                    &{
+                        let mut s = [0u8; 32];
+                        s[..8].copy_from_slice(&seed.to_le_bytes());
+                        s
+                    },
+                ),
+            );
+            let strat = case_strategy(dial);
+            for _ in 0..n {
+                let c = strat.new_tree(&mut runner).ok()?.current();
+                println!(
+                    "(* ---- program: {} tape words ---- *)",
+                    c.prog_tape.data.len()
+                );
+                println!("{}", c.source);
+                if let (Some(p), Some(t)) = (&c.program, &c.trace) {
+                    println!("(* trace\n{}*)", trace_text(p, t));
+                    let mut probe = Probe::default();
+                    match check_case(&c, &mut probe) {
+                        Ok(()) => println!("(* verdict: ok; labels {:?} *)", probe.labels),
+                        Err(e) => println!(
+                            "(* verdict: FAIL {} *)",
+                            e.lines().take(8).collect::<Vec<_>>().join("\n")
+                        ),
+                    }
+                }
+            }
+            for m in INTERNAL.lock().unwrap().iter() {
+                println!("(* INTERNAL: {m} *)");
+            }
+            Some(0)
+        }
+        Some("c02-mkreplays") => Some(handmade::write_replays(args.get(1).map(|s| s.as_str()))),
+        _ => None,
+    }
 }
 
 fn run(ctx: &mut RunCtx) {
-    ctx.inconclusive("check not built yet");
+    let tier = ctx.tier;
+    ctx.search(
+        "strict",
+        case_strategy("strict"),
+        tier.pick(12_000, 400_000),
+        check_case,
+    );
+    // The implicit dial (untyped literals, widening assignments) is F8 territory: while that
+    // finding is open only its reproducer is replayed (-> KNOWN-FINDING line); once it is
+    // fixed the dial joins the search.
+    let f8_open = ctx.is_open("F8-assignment-keeps-expression-type");
+    let implicit_cases = if f8_open { 0 } else { tier.pick(6_000, 200_000) };
+    ctx.search("implicit", case_strategy("implicit"), implicit_cases, check_case);
+
+    let ran = RAN.load(Ordering::Relaxed);
+    let rejected = REJECTED.load(Ordering::Relaxed);
+    let internal = INTERNAL.lock().unwrap().clone();
+    if !internal.is_empty() {
+        ctx.inconclusive(format!(
+            "{} case(s) hit an inconsistency inside the generator/reference (not a verdict about the runtime); first: {}",
+            internal.len(),
+            internal[0].lines().take(3).collect::<Vec<_>>().join(" | ")
+        ));
+    }
+    if ctx.only_replay.is_none() && rejected * 50 > (ran + rejected).max(1) {
+        ctx.inconclusive(format!(
+            "{rejected} of {} generated programs were rejected by the compiler (> 2 %): the generator no longer matches the accepted language",
+            ran + rejected
+        ));
+    }
+    let t = TIMEOUTS.load(Ordering::Relaxed);
+    if t > 0 {
+        ctx.note(format!(
+            "{t} case(s) hit the 5 s execution deadline of the runtime and were not judged"
+        ));
+    }
+    let _ = BTreeMap::<u8, u8>::new();
 }
